@@ -35,7 +35,7 @@ Arguments Ok {R E} r.
 Arguments Exc {R E} e.
 
 Inductive action := F (w : nat) | P.
-Inductive jaction := T (w : nat) | JP.
+Inductive jaction := T (w : nat) | JP | V.
 
 Section Pools.
 Context {R E : Type}.
@@ -175,6 +175,7 @@ Record jstate := J {
   jq : list item;               (* the shared job queue *)
   jrq : list (list item);       (* result queue of every worker *)
   jalive : list bool;
+  jvis : bool;                  (* the parent's queue feeder thread has flushed the jobs into the pipe *)
   jcur : nat;
   jcount : nat;                 (* process_count *)
   jtarget : nat;                (* total *)
@@ -183,38 +184,51 @@ Record jstate := J {
   jdone : bool
 }.
 Definition jstart (workers : nat) (jobs : list item) : jstate :=
-  J jobs (repeat [] workers) (repeat true workers) 0 0 (length jobs) None [] (length jobs =? 0).
+  J jobs (repeat [] workers) (repeat true workers) false 0 0 (length jobs) None [] (length jobs =? 0).
 
-Definition stepT (w : nat) (s : jstate) : jstate :=
+Definition jexit (w : nat) (s : jstate) : jstate :=
+  J (jq s) (jrq s) (upd (jalive s) w (fun _ => false)) (jvis s) (jcur s) (jcount s) (jtarget s) (jexc s) (jtaken s) (jdone s).
+
+(* one turn of the worker loop.  As it is: `if self.job_queue.empty(): break` -- also when the jobs queued by
+   the parent are not visible yet.  [fixed] = proposed_fixes/C14-run-jobs-sentinel.diff: blocking get(), one
+   StopCommand per worker behind the jobs (a worker only leaves when every job has been taken). *)
+Definition stepT (fixed : bool) (w : nat) (s : jstate) : jstate :=
   if nth w (jalive s) false then
-    match jq s with
-    | [] => J [] (jrq s) (upd (jalive s) w (fun _ => false)) (jcur s) (jcount s) (jtarget s) (jexc s) (jtaken s) (jdone s)
-    | it :: r => J r (upd (jrq s) w (fun q => q ++ [it])) (jalive s) (jcur s) (jcount s) (jtarget s) (jexc s) (jtaken s) (jdone s)
-    end
+    if jvis s then
+      match jq s with
+      | [] => jexit w s
+      | it :: r => J r (upd (jrq s) w (fun q => q ++ [it])) (jalive s) (jvis s) (jcur s) (jcount s) (jtarget s) (jexc s) (jtaken s) (jdone s)
+      end
+    else if fixed then s else jexit w s
   else s.
+
+Definition stepV (s : jstate) : jstate :=
+  J (jq s) (jrq s) (jalive s) true (jcur s) (jcount s) (jtarget s) (jexc s) (jtaken s) (jdone s).
 
 Definition stepJP (s : jstate) : jstate :=
   if jdone s then s else
   match qnth (jrq s) (jcur s) with
   | it :: rest =>    (* `while not process.queue.empty(): result = process.queue.get(); ...; yield result` *)
-      J (jq s) (upd (jrq s) (jcur s) (fun _ => rest)) (jalive s) (jcur s)
+      J (jq s) (upd (jrq s) (jcur s) (fun _ => rest)) (jalive s) (jvis s) (jcur s)
         (if is_exc it then S (S (jcount s)) else S (jcount s)) (jtarget s)
         (if is_exc it then Some it else jexc s) (jtaken s ++ [it]) (jdone s)
   | [] =>            (* next process; `while process_count < total` is tested between two sweeps *)
       if S (jcur s) <? length (jrq s)
-      then J (jq s) (jrq s) (jalive s) (S (jcur s)) (jcount s) (jtarget s) (jexc s) (jtaken s) (jdone s)
-      else J (jq s) (jrq s) (jalive s) 0 (jcount s) (jtarget s) (jexc s) (jtaken s) (jtarget s <=? jcount s)
+      then J (jq s) (jrq s) (jalive s) (jvis s) (S (jcur s)) (jcount s) (jtarget s) (jexc s) (jtaken s) (jdone s)
+      else J (jq s) (jrq s) (jalive s) (jvis s) 0 (jcount s) (jtarget s) (jexc s) (jtaken s) (jtarget s <=? jcount s)
   end.
 
-Definition jstep (s : jstate) (a : jaction) : jstate := match a with T w => stepT w s | JP => stepJP s end.
-Definition jrun (sched : list jaction) (s : jstate) : jstate := fold_left jstep sched s.
+Definition jstep (fixed : bool) (s : jstate) (a : jaction) : jstate :=
+  match a with T w => stepT fixed w s | JP => stepJP s | V => stepV s end.
+Definition jrun (fixed : bool) (sched : list jaction) (s : jstate) : jstate := fold_left (jstep fixed) sched s.
 Definition jdrain_fuel (workers k : nat) : nat := (2 * k + 2) * workers + k.
 (* what can be observed of a call: the caller stops looking once the generator has returned or raised
    (workers may go on taking jobs afterwards; their results are never read) *)
-Definition jstep_obs (s : jstate) (a : jaction) : jstate := if jdone s then s else jstep s a.
-Definition jrun_obs (sched : list jaction) (s : jstate) : jstate := fold_left jstep_obs sched s.
+Definition jstep_obs (fixed : bool) (s : jstate) (a : jaction) : jstate := if jdone s then s else jstep fixed s a.
+Definition jrun_obs (fixed : bool) (sched : list jaction) (s : jstate) : jstate := fold_left (jstep_obs fixed) sched s.
+(* the steered runs of the correspondence open the workers' gates long after the jobs have been flushed *)
 Definition run_jobs (workers : nat) (outs : list (outcome R E)) (sched : list jaction) : jstate :=
-  jrun_obs (sched ++ repeat JP (jdrain_fuel workers (length outs))) (jstart workers (enum outs)).
+  jrun_obs false (V :: sched ++ repeat JP (jdrain_fuel workers (length outs))) (jstart workers (enum outs)).
 
 (* ---------------- callers that key results by job number ---------------- *)
 Fixpoint lookup (k : nat) (l : list item) : option (outcome R E) :=
